@@ -34,7 +34,7 @@ Step ==
        ELSE LET v == Verdict(r) IN
             IF v = ""
             THEN st' = Apply(st, [op |-> r.op, x |-> r.x, y |-> r.y, e |-> r.e])[1] /\ dead' = FALSE
-            ELSE PrintT(<<"REJECT", l, v>>) /\ dead' = TRUE /\ st' = st
+            ELSE PrintT("REJECT|" \o ToString(l) \o "|" \o v) /\ dead' = TRUE /\ st' = st
 
 Next == Step
 Spec == Init /\ [][Next]_vars
